@@ -46,6 +46,11 @@ def generate(ctx):
         else:
             p = pdalib.rand_pda(rng, max_states=2, max_stack=2, max_trans=4 if ctx.tier == "quick" else 5,
                                 profile="falike" if rng.random() < 0.5 else None)
+            if len(p["trans"]) > 6:
+                # cost control: the exact acceptance oracle is exponential in the length of pushed strings times the number of transitions of
+                # the product; larger automata only push up to two symbols
+                p = dict(p, trans=[t[:4] + [t[4][:2]] for t in p["trans"]])
+                p["trans"] = [t for i, t in enumerate(p["trans"]) if t not in p["trans"][:i]]
             c["p"] = p
             c["g"] = {"profile": "pda:" + p["profile"], "prods": [], "terms": p["inputs"]}
             terms = p["inputs"]
@@ -157,6 +162,11 @@ class _Ext:
             ref = "(fun w => cfg_member %s w && accepts %s w)" % (G, A)
             m = "cfg_inter_model_diff %s %s %s %s" % (G, A, ref, ws) if case.get("with_model") else "@None (list N)"
             return "(first_diff %s (cfg_member %s) %s, %s)" % (ref, H, ws, m)
+        # the exact acceptance oracle enumerates chains of intermediate (state, position) pairs for every pushed string: on a product with
+        # many transitions that push three symbols the comparison is restricted to the words of length <= 2 (cost control, counted as is)
+        rt = obs["pda"]["trans"]
+        if len(rt) > 14 and any(len(t[4]) >= 3 for t in rt):
+            ws = cq([[ci.ter(a) for a in w] for w in _words(case, fa["symbols"]) if len(w) <= 2])
         pi = PdaInterner(sym=ci.ter)
         P = coq_pda(case["p"], pi)
         pj = PdaInterner(sym=ci.ter)
